@@ -34,7 +34,8 @@ def _second_sent(r, k, recs):
 
 
 def _sent_as_failed(r, k, recs):
-    if r["ev"] == "event" and r.get("kind") == "PaymentSent":
+    if r["ev"] == "event" and r.get("kind") == "PaymentSent" and \
+            sum(1 for x in recs if x["run"] == r["run"] and x["ev"] == "send" and x["pid"] == r["pid"]) == 1:
         return [{"ev": "event", "node": r["node"], "kind": "PaymentFailed", "pid": r["pid"], "hash": r["hash"],
                  "reason": "x", "run": r["run"], "seq": r["seq"]}]
 
@@ -56,10 +57,12 @@ def _fee_off(r, k, recs):
 
 
 def _dup_accepted(r, k, recs):
+    # a refused duplicate of a payment whose HTLC is on the wire and unresolved
     if r["ev"] == "send" and r["res"] == "dup":
-        nxt = [x for x in recs[k + 1:k + 2]]
-        prev_inflight = any(x["ev"] == "msg" and x["kind"] == "update_add_htlc" and x["run"] == r["run"] for x in recs[:k])
-        if prev_inflight and not any(x["run"] == r["run"] and x["ev"] == "deliver" and x["kind"] != "update_add_htlc" for x in recs[:k]):
+        first = [x for x in recs[:k] if x["run"] == r["run"] and x["ev"] == "send" and x["pid"] == r["pid"] and x["res"] == "ok"]
+        if len(first) == 1 and any(x["ev"] == "msg" and x["kind"] == "update_add_htlc" and x["run"] == r["run"] and x["from"] == r["node"]
+                                   and x["hash"] == first[0]["hash"] for x in recs[:k]) \
+                and not any(x["run"] == r["run"] and x["ev"] == "deliver" and x["kind"] != "update_add_htlc" for x in recs[:k]):
             r["res"] = "ok"
             return [r]
 
@@ -67,8 +70,8 @@ def _dup_accepted(r, k, recs):
 def _blame_moved(r, k, recs):
     if r["ev"] == "event" and r.get("kind") == "PaymentPathFailed" and not r["initial"] and len(r["path"]) >= 3 \
             and r["blamed"] in r["path"][1:] and not any(x["ev"] == "restart" and x["run"] == r["run"] for x in recs):
-        sends = [x for x in recs[:k] if x["run"] == r["run"] and x["ev"] == "send" and x["pid"] == r["pid"] and x["res"] == "ok"]
-        if len(sends) == 1:
+        sends = [x for x in recs if x["run"] == r["run"] and x["ev"] == "send" and (x["pid"] == r["pid"] or x["hash"] == r["hash"])]
+        if len(sends) == 1 and sends[0]["res"] == "ok":
             r["blamed"] = r["path"][0] if r["path"].index(r["blamed"]) >= 2 else -1
             if r["blamed"] != -1:
                 return [r]
@@ -80,7 +83,8 @@ def _failed_early(r, k, recs):
         later = [j for j in range(k + 1, len(recs)) if recs[j]["run"] == r["run"]]
         pf = [j for j in later if recs[j]["ev"] == "event" and recs[j].get("kind") == "PaymentFailed"]
         more = [j for j in later if recs[j]["ev"] == "deliver" and recs[j]["kind"] != "update_add_htlc" and recs[j]["to"] == 0]
-        if pf and not more and not any(recs[j]["ev"] == "send" for j in later if j < pf[0]):
+        sends = [x for x in recs if x["run"] == r["run"] and x["ev"] == "send"]
+        if pf and not more and len(sends) == 1 and sends[0]["res"] == "ok" and recs[pf[0]]["pid"] == sends[0]["pid"]:
             return [recs[pf[0]], r]
 
 
